@@ -8,8 +8,9 @@ META = {
                  "(drop/duplicate/swap/replay/late start) with the spot and USD-futures sequencer rules, model-checked "
                  "with TLC (Chain, BookValid, BreakSurfaces, CleanNeverErrors, Isolation); scenarios replayed into the "
                  "real transformers (JSON payloads -> WebSocketParser -> Transformer::transform -> OrderBook::update), "
-                 "also through ExchangeStream + with_termination_on_error + with_reconnection_events; random "
-                 "perturbation traces validated step by step by TLC",
+                 "also through ExchangeStream + with_termination_on_error + with_reconnection_events, and through the real "
+                 "ExchangeWsStream::init (subscribe / validate / snapshot / process_buffered_events) over a loopback websocket "
+                 "with Binance's own connector settings; random perturbation traces validated step by step by TLC",
 }
 ASSUMPTIONS = [
     "exchange update ids are contiguous per instrument (U_{k+1} = u_k + 1 and pu_{k+1} = u_k), each diff event carries "
@@ -19,14 +20,21 @@ ASSUMPTIONS = [
     "not a clean delivery",
     "a clean delivery starts with the event covering snapshot id + 1 (spot) / snapshot id (futures); with the futures rule "
     "and a snapshot at id 0 no such event exists",
-    "MarketStream::init itself (connect / subscribe / REST fetch) needs the network and is not driven; the stream mode "
-    "rebuilds its chain of combinators around scripted connections",
+    "mode init runs the real ExchangeWsStream::init against a loopback websocket: the connector is Binance<Server> with a "
+    "harness ExchangeServer (only the url differs), the REST snapshot comes from a scripted SnapshotFetcher, the transformer "
+    "is a wrapper delegating init/transform to the real Binance transformers",
+    "Binance's expected_responses is 1, so WebSocketSubValidator never buffers a depth frame (frames before the confirmation "
+    "are discarded = a drop); the ordering of buffered outputs vs snapshot events in the generic init is therefore not "
+    "reachable for Binance - it is exercised with a harness connector (trait-default expected_responses) as a labelled "
+    "demonstration that is reported as a NOTE and never enters the verdict",
     "wire values: ids shifted by a per-world base (up to 2^62), prices / amounts scaled by powers of ten",
 ]
 INSTR = ("i1", "i2")
 
 
 def anomaly(line):
+    if line.get("a") == "Reset":
+        return None
     post = line.get("post")
     if str(line.get("out", "")).startswith("Anomaly"):
         return "harness anomaly: %s %s" % (line.get("out"), line.get("err") if line.get("err") != "none" else "")
@@ -35,7 +43,7 @@ def anomaly(line):
     for i in INSTR:
         b, q = post["book"].get(i), post["sq"].get(i)
         if not isinstance(b, dict) or not isinstance(q, dict):
-            return "instrument %s has no book / sequencer after the step" % i
+            return "instrument %s has no book / sequencer after the step (the consumer never received its snapshot)" % i
         for lv in b["bids"] + b["asks"]:
             if not isinstance(lv.get("p"), int) or not isinstance(lv.get("a"), int):
                 return "non-integral level in spec units: %s" % json.dumps(lv)
@@ -56,51 +64,86 @@ def expected_outcome(rule, ev, sq):
     return "Admitted" if ok else "Error"
 
 
+def truth(chg, n):
+    """Exchange book after changes 1..n as {bids, asks, seq} (replay files only: the REST snapshot contents)."""
+    sides = {"b": {}, "a": {}}
+    for c in chg[:n]:
+        if c["a"] == 0:
+            sides[c["side"]].pop(c["p"], None)
+        else:
+            sides[c["side"]][c["p"]] = c["a"]
+    return {"bids": [{"p": p, "a": a} for p, a in sorted(sides["b"].items(), reverse=True)],
+            "asks": [{"p": p, "a": a} for p, a in sorted(sides["a"].items())], "seq": n}
+
+
 def scenario_of(seg):
     """Rebuild a replayable scenario from a trace segment (Reset .. offending line)."""
     w = seg[0]["world"]
     world = {i: {"chg": w["chg"][i], "cut": w["cut"][i], "events": w["events"][i]} for i in INSTR}
-    steps = []
-    for l in seg:
-        if l["a"] in ("Reset", "Reinit"):
-            steps.append({"a": "Init" if l["a"] == "Reset" else "Reinit", "snap": l["snap"], "unchecked": True,
-                          "books": {i: (l["post"]["book"][i] if isinstance(l.get("post"), dict) and isinstance(l["post"]["book"].get(i), dict)
-                                        else {"bids": [], "asks": [], "seq": l["snap"][i]}) for i in INSTR}})
+    steps, first = [], True
+    for l in seg[1:]:
+        if l["a"] == "Connect":
+            steps.append({"a": "Init" if first else "Reinit", "snap": l["snap"], "pre": l["pre"], "buf": l["buf"],
+                          "books": {i: truth(w["chg"][i], l["snap"][i]) for i in INSTR}})
+            first = False
         else:
             steps.append({"a": "Deliver", "i": l["i"], "k": l["k"]})
-    return {"rule": w["rule"], "world": world, "steps": steps}
+    return {"rule": w["rule"], "expected": w.get("expected", 1), "world": world, "steps": steps}
 
 
-def validate(ctx, trace_path, mode, label):
-    lines = ctx.read_trace(trace_path)
-    clean = ctx.path("clean_" + label.replace("/", "_") + ".ndjson")
-    found, keep = ctx.screen_anomalies(lines, clean, anomaly)
-    for n, d, seg in found:
-        ctx.violation("anomaly:" + d.split(":")[0][:60], "%s [%s, line %d]" % (d, label, n), {"mode": mode, "scenario": scenario_of(seg)})
-    n, bad, truncated = ctx.tlc_trace("Trace_" + MODULE, "Trace_" + MODULE + ".cfg", clean, timeout=1500)
+def emission_kind(line):
+    for i in INSTR:
+        ts = [e["t"] for e in line.get("emit", []) if e.get("i") == i]
+        if "S" in ts and ts.index("S") > 0:
+            return "update-emitted-before-snapshot"
+        if "S" not in ts:
+            return "no-snapshot-emitted"
+    return "state"
+
+
+def validate(ctx, traces, label, variant="binance"):
+    """traces: [(mode, path)]; the traces of all modes are validated in ONE TLC run (every segment starts
+    with its own Reset line) and rejected lines are mapped back to their mode."""
+    keep_all, origin = [], []
+    for mode, path in traces:
+        lines = ctx.read_trace(path)
+        clean = ctx.path("clean_%s_%s.ndjson" % (label.replace("/", "_"), mode))
+        found, keep = ctx.screen_anomalies(lines, clean, anomaly)
+        for n, d, seg in found:
+            ctx.violation("anomaly:" + d.split(":")[0][:60], "%s [%s/%s, line %d]" % (d, label, mode, n),
+                          {"mode": mode, "variant": variant, "scenario": scenario_of(seg)})
+        keep_all += keep
+        origin += [mode] * len(keep)
+    joined = ctx.path("clean_%s_all.ndjson" % label.replace("/", "_"))
+    with open(joined, "w") as f:
+        for l in keep_all:
+            f.write(json.dumps(l) + "\n")
+    n, bad, truncated = ctx.tlc_trace("Trace_" + MODULE, "Trace_" + MODULE + ".cfg", joined, timeout=1500)
     for b in bad:
-        seg = ctx.segment(keep, b)
-        line = keep[b - 1]
+        seg = ctx.segment(keep_all, b)
+        line, mode = keep_all[b - 1], origin[b - 1]
         rule = seg[0]["world"]["rule"] if isinstance(seg[0].get("world"), dict) else "?"
-        pre = seg[-2]["post"] if len(seg) >= 2 else None
-        if line["a"] == "Deliver" and pre and rule != "?":
+        pre = seg[-2].get("post") if len(seg) >= 2 else None
+        if line["a"] == "Deliver" and isinstance(pre, dict) and rule != "?":
             ev = seg[0]["world"]["events"][line["i"]][line["k"] - 1]
             sq = pre["sq"][line["i"]]
             exp = expected_outcome(rule, ev, sq)
             what = "outcome" if exp != line["out"] else "state"
             sig = "trace:%s:%s:%s:%s->%s" % (rule, "first" if sq["processed"] == 0 else "next", what, exp, line["out"])
-            desc = ("%s rule, instrument %s sequencer %s book seq %s, event k=%d U=%d u=%d pu=%d -> observed %s%s, post %s; the venue "
-                    "rule gives %s - not a step BinanceL2 allows [%s, line %d]") % (
+            desc = ("%s rule, instrument %s sequencer %s book seq %s, event k=%d U=%d u=%d pu=%d -> observed %s%s, consumer received %s, "
+                    "post %s; the venue rule gives %s - not a step BinanceL2 allows [%s/%s, line %d]") % (
                 rule, line["i"], json.dumps(sq), pre["book"][line["i"]]["seq"], line["k"], ev["U"], ev["u"], ev["pu"], line["out"],
-                "" if line["err"] == "none" else " (%s, terminal=%s)" % (line["err"], line["term"]),
+                "" if line["err"] == "none" else " (%s, terminal=%s)" % (line["err"], line["term"]), json.dumps(line["emit"]),
                 json.dumps({"book": line["post"]["book"][line["i"]], "sq": line["post"]["sq"][line["i"]], "conn": line["post"]["conn"],
-                            "notices": line["post"]["notices"]}), exp, label, b)
+                            "notices": line["post"]["notices"]}), exp, label, mode, b)
         else:
-            sig = "trace:%s:%s" % (rule, line["a"])
-            desc = "%s rule, %s with snapshots %s -> observed %s is not what BinanceL2 allows [%s, line %d]" % (
-                rule, line["a"], json.dumps(line.get("snap")), json.dumps(line.get("post"))[:600], label, b)
-        ctx.violation(sig, desc, {"mode": mode, "scenario": scenario_of(seg)})
-    ctx.cov["traces_validated_against_impl"] += sum(1 for l in keep if l.get("a") == "Reset")
+            sig = "trace:%s:%s:%s" % (rule, line["a"], emission_kind(line) if line["a"] == "Connect" else "world")
+            desc = ("%s rule, %s with snapshots %s, frames before the confirmation %s, buffered frames %s -> consumer received %s and holds %s: "
+                    "not what BinanceL2 allows [%s/%s, line %d]") % (
+                rule, line["a"], json.dumps(line.get("snap")), json.dumps(line.get("pre")), json.dumps(line.get("buf")),
+                json.dumps(line.get("emit")), json.dumps(line.get("post"))[:500], label, mode, b)
+        ctx.violation(sig, desc, {"mode": mode, "variant": variant, "scenario": scenario_of(seg)})
+    ctx.cov["traces_validated_against_impl"] += sum(1 for l in keep_all if l.get("a") == "Reset")
     return n
 
 
@@ -115,15 +158,62 @@ def check_results(ctx, results_path, scns, mode, label):
                       "%s rule, state %s, step %s: %s [%s scenario %d step %s]" % (
                           r.get("rule"), json.dumps(r.get("pre"))[:700], json.dumps({k: ev.get(k) for k in ("a", "i", "k", "out", "snap") if k in ev}),
                           err, label, r["scn"], r.get("step")),
-                      {"mode": mode, "scenario": scns[r["scn"]]})
+                      {"mode": mode, "variant": "binance", "scenario": scns[r["scn"]]})
 
 
-def run_scenarios(ctx, scn_path, scns, mode, label):
-    res, tr = ctx.path("results_%s_%s.ndjson" % (label, mode)), ctx.path("trace_%s_%s.ndjson" % (label, mode))
-    ctx.harness("c06", "run", "--scenarios", scn_path, "--results", res, "--trace", tr, "--mode", mode, "--seed", ctx.seed)
-    check_results(ctx, res, scns, mode, label + "/" + mode)
-    validate(ctx, tr, mode, label + "/" + mode)
-    ctx.cov["scenarios_replayed"] += len(scns)
+MODES = ("direct", "stream", "init")
+
+
+def run_scenarios(ctx, scn_path, scns, modes, label, variant="binance"):
+    traces = []
+    for mode in modes:
+        res, tr = ctx.path("results_%s_%s.ndjson" % (label, mode)), ctx.path("trace_%s_%s.ndjson" % (label, mode))
+        ctx.harness("c06", "run", "--scenarios", scn_path, "--results", res, "--trace", tr, "--mode", mode, "--variant", variant,
+                    "--seed", ctx.seed)
+        check_results(ctx, res, scns, mode, label + "/" + mode)
+        traces.append((mode, tr))
+        ctx.cov["scenarios_replayed"] += len(scns)
+    validate(ctx, traces, label, variant)
+
+
+def spec_rejects_wrong_emission_order(ctx):
+    """Self-test of the specification: with the emission order 'buffered updates before the snapshot event'
+    TLC must find BookValid violated (else BookValid would not speak about the consumer's book)."""
+    rc, out, dt = ctx._tlc("MC_" + MODULE, "MC_BinanceL2_initbad.cfg", [], 2, 600, tag="neg")
+    if "Invariant BookValid is violated" not in out:
+        raise vlib.ToolError("the buffered-first emission order does not violate BookValid in MC_BinanceL2_initbad.cfg\n" + out[-2000:])
+    ctx.cov["tlc_runs"].append({"module": "MC_" + MODULE, "cfg": "MC_BinanceL2_initbad.cfg", "mode": "negative test",
+                                "expected": "Invariant BookValid is violated", "observed": True, "wall_s": round(dt, 2)})
+    vlib.log("TLC MC_BinanceL2_initbad.cfg: BookValid violated by the buffered-first emission order, as it must be (%.0fs)" % dt)
+
+
+def latent_generic_init_order(ctx):
+    """DEMONSTRATION, never part of the verdict: the generic ExchangeWsStream::init queues the outputs of
+    process_buffered_events BEFORE the snapshot events. Unreachable for Binance (expected_responses = 1: the
+    validator never buffers); shown here with a harness connector that waits for one confirmation per
+    subscription (the trait default), so that frames between two confirmations are buffered."""
+    try:
+        p, scns = ctx.tlc_gen("Gen_" + MODULE, "GenI_BinanceL2.cfg", "buffered.ndjson", timeout=600)
+        res, tr = ctx.path("results_buffered.ndjson"), ctx.path("trace_buffered.ndjson")
+        info = ctx.harness("c06", "run", "--scenarios", p, "--results", res, "--trace", tr, "--mode", "init", "--variant", "multi",
+                           "--seed", ctx.seed)
+        bad = [r for r in ctx.read_results(res) if not r.get("ok")]
+        order = sum(1 for l in ctx.read_trace(tr) if l.get("a") == "Connect" and emission_kind(l) != "state")
+        note = {"scenarios": len(scns), "diverging": len(bad), "connections_with_wrong_emission_order": order,
+                "buffered_frames": info.get("arms", {}).get("frames_buffered"),
+                "example": ({"rule": bad[0].get("rule"), "step": bad[0].get("event"), "error": bad[0].get("error")} if bad else None),
+                "where": "barter-data/src/lib.rs ExchangeWsStream::init: process_buffered_events(..) then processed.extend(initial_snapshots)",
+                "reachable_for_binance": False}
+        ctx.cov["latent_generic_init_order"] = note
+        if bad:
+            print("NOTE property=C06 (not a violation; unreachable with Binance's expected_responses = 1): with a connector that buffers "
+                  "frames during subscription validation, %d of %d scenarios diverge - %d connection(s) hand the consumer an admitted buffered "
+                  "update BEFORE the snapshot event (or no snapshot at all after a buffered sequence error)" % (len(bad), len(scns), order), flush=True)
+        else:
+            vlib.log("demonstration variant (buffering connector): all %d scenarios agree with the specification" % len(scns))
+    except vlib.ToolError as e:
+        ctx.cov["latent_generic_init_order"] = {"tool_error": str(e)[:500]}
+        vlib.log("demonstration variant skipped: %s" % str(e)[:200])
 
 
 def check(ctx):
@@ -131,7 +221,10 @@ def check(ctx):
     ctx.build("c06")
     # exhaustive: one instrument, fixed evolutions, reconnect (every action covered) ...
     ctx.tlc_mc("MC_" + MODULE, "MC_BinanceL2.cfg", timeout=900)
-    # ... two instruments on one connection; all evolutions of a small book (content x sequencing)
+    # ... connection establishment with buffered frames (expected confirmations 1 and 2); two instruments on one
+    # connection; all evolutions of a small book (content x sequencing)
+    ctx.tlc_mc("MC_" + MODULE, "MC_BinanceL2_init.cfg", timeout=900, coverage=False)
+    spec_rejects_wrong_emission_order(ctx)
     if ctx.quick:
         ctx.tlc_mc("MC_" + MODULE, "MC_BinanceL2_two.cfg", timeout=900, coverage=False)
         ctx.tlc_mc("MC_" + MODULE, "MC_BinanceL2_content.cfg", timeout=900, coverage=False)
@@ -147,13 +240,16 @@ def check(ctx):
     b0 = dict(scn_b[0])
     b0["steps"] = b0["steps"][:6]
     ctx.sample({"kind": "TLC simulated behaviour, two instruments (first 6 of %d steps)" % len(scn_b[0]["steps"]), "scenario": b0})
-    segments = 12 if ctx.quick else 300
-    for mode in ("direct", "stream"):
-        run_scenarios(ctx, p_t, scn_t, mode, "transitions")
-        run_scenarios(ctx, p_b, scn_b, mode, "behaviours")
+    segments = 8 if ctx.quick else 300
+    run_scenarios(ctx, p_t, scn_t, MODES, "transitions")
+    run_scenarios(ctx, p_b, scn_b, MODES, "behaviours")
+    traces = []
+    for mode in MODES:
         out = ctx.path("trace_random_%s.ndjson" % mode)
         ctx.harness("c06", "random", "--seed", ctx.seed, "--segments", segments, "--trace", out, "--mode", mode)
-        validate(ctx, out, mode, "random/" + mode)
+        traces.append((mode, out))
+    validate(ctx, traces, "random")
+    latent_generic_init_order(ctx)
     return ctx.finish()
 
 
@@ -162,5 +258,5 @@ def replay(ctx, rp):
     scn = ctx.path("replay_scn.ndjson")
     with open(scn, "w") as f:
         f.write(json.dumps(rp["scenario"]) + "\n")
-    run_scenarios(ctx, scn, [rp["scenario"]], rp["mode"], "replay")
+    run_scenarios(ctx, scn, [rp["scenario"]], [rp["mode"]], "replay", rp.get("variant", "binance"))
     return ctx.finish(write_evidence=False)
